@@ -242,6 +242,10 @@ fn eq_pool() -> Vec<(String, Value)> {
     add("Json:ab", serde_json::from_str::<serde_json::Value>(r#"{"a":1,"b":2}"#).unwrap().into());
     add("Json:ba", serde_json::from_str::<serde_json::Value>(r#"{"b":2,"a":1}"#).unwrap().into());
     add("Json:str_a", json!("a").into()); add("Json:1", json!(1).into()); add("Json:1.0", json!(1.0).into());
+    // JSON numbers that are equal as numbers but serialise differently (equality is on the serialisation)
+    add("Json:f+0", json!(0.0).into()); add("Json:f-0", json!(-0.0).into());
+    add("Json:arr+0", json!([0.0, {"z": 0.0}]).into()); add("Json:arr-0", json!([-0.0, {"z": -0.0}]).into());
+    add("Json:i0", json!(0).into());
     add("ChronoDate:null", Value::ChronoDate(None)); add("ChronoDate:d1", chrono::NaiveDate::from_ymd_opt(2020, 1, 1).unwrap().into());
     add("TimeDate:null", Value::TimeDate(None)); add("TimeDate:d1", time::Date::from_calendar_date(2020, time::Month::January, 1).unwrap().into());
     add("ChronoDateTime:dt1", chrono::NaiveDate::from_ymd_opt(2020, 1, 1).unwrap().and_hms_opt(0, 0, 0).unwrap().into());
